@@ -1,5 +1,6 @@
 import PT.Lemmas.Inter
 import PT.Lemmas.Views
+import PT.Lemmas.Writes
 /-!
 # C06 — Intersection traversal yields exactly the prefixes stored in both operands
 
@@ -74,6 +75,35 @@ theorem intersection_swap (a : Tree w L) (b : Tree w R) (hwa : HasWF a) (hwb : H
   obtain ⟨ha, pb, hb, hk⟩ := intersection_sound a b hwa hwb i hi
   obtain ⟨j, hj, hjp, hjl⟩ := intersection_complete b a hwb hwa (i.r.1, pb, i.r.2) hb (i.l.1, i.p, i.l.2) ha hk
   exact ⟨j, hj, by rw [hjp]; exact hk, hjl⟩
+
+/-- a well-formed subtree stores at most one entry per key -/
+theorem slotEntries_key_inj {T : Type} {t : Tree w T} (h : HasWF t) {x y : Nat × Pfx w × T}
+    (hx : x ∈ t.slotEntries) (hy : y ∈ t.slotEntries) (hk : keyOf x = keyOf y) : x = y := by
+  obtain ⟨k, hk'⟩ := h
+  have hs := entries_sorted hk'
+  rw [← slotEntries_snd, List.pairwise_map] at hs
+  generalize t.slotEntries = l at hs hx hy
+  induction l with
+  | nil => cases hx
+  | cons z zs ih =>
+    rw [List.pairwise_cons] at hs
+    rcases List.mem_cons.1 hx with rfl | hx' <;> rcases List.mem_cons.1 hy with rfl | hy'
+    · rfl
+    · have := hs.1 y hy'; simp only [keyOf] at hk; rw [hk, Spec.keyLt_irrefl] at this; cases this
+    · have := hs.1 x hx'; simp only [keyOf] at hk; rw [← hk, Spec.keyLt_irrefl] at this; cases this
+    · exact ih hs.2 hx' hy'
+/-- swapping the operands swaps the two sides of every item: same key, `b`'s node and value on the
+left, `a`'s node and value on the right -/
+theorem intersection_swap_full (a : Tree w L) (b : Tree w R) (hwa : HasWF a) (hwb : HasWF b)
+    (i : IItem w L R) (hi : i ∈ intersection a b) :
+    ∃ j ∈ intersection b a, j.p.net = i.p.net ∧ j.l = i.r ∧ j.r = i.l := by
+  obtain ⟨j, hj, hjk, hjl⟩ := intersection_swap a b hwa hwb i hi
+  refine ⟨j, hj, hjk, hjl, ?_⟩
+  obtain ⟨ha, _, _, _⟩ := intersection_sound a b hwa hwb i hi
+  obtain ⟨_, pa, ha', hpa⟩ := intersection_sound b a hwb hwa j hj
+  have := slotEntries_key_inj hwa ha' ha (by simp only [keyOf]; rw [hpa, hjk])
+  simp only [Prod.mk.injEq] at this
+  exact Prod.ext this.1 this.2.2
 
 /-- two sub-views whose roots are incomparable (disjoint sub-views of one map, or of two maps) have an
 empty intersection -/
